@@ -542,3 +542,171 @@ def is_complex_local(spec, term):
         if is_complex_symbol(spec["sites"][site]["k"], " ".join(words)):
             return True
     return False
+
+
+# ------------------------------------------------------------------------------------------------
+# charge-definite operators (for models with quantum numbers)
+# ------------------------------------------------------------------------------------------------
+
+
+def site_blocks(spec, i, real_only=False):
+    """candidate single-site pick lists with a definite charge: list of (picks, charge tuple)."""
+    s = spec["sites"][i]
+    k = s["k"]
+    out = []
+
+    def add(picks):
+        q = term_charge(spec, {"f": [1, 0], "ops": picks})
+        if q is not None:
+            out.append((picks, tuple(int(x) for x in q)))
+
+    if k == "spin":
+        words = _spin_words(spec, i, real_only)
+        for w in words:
+            add([[i, w, []]])
+        for w1, w2 in [("+", "-"), ("-", "+"), ("Z", "+"), ("-", "Z"), ("sigma_+", "sigma_z")]:
+            if w1 in words and w2 in words:
+                add([[i, w1 + " " + w2, []]])
+    elif k == "elec":
+        for w in ELEC_SINGLE:
+            add([[i, w, []]])
+    elif k == "sho":
+        single = SHO_SINGLE_REAL if real_only else SHO_SINGLE
+        if s.get("dvr"):
+            single = [x for x in single if x in ("x", "x^2", "x^3", "p", "p^2", "dx", "dx^2", "I")]
+        for w in single:
+            add([[i, w, []]])
+    elif k == "sine":
+        for w in (SINE_SINGLE_REAL if real_only else SINE_SINGLE):
+            add([[i, w, []]])
+    elif k == "hops":
+        for w in HOPS_SINGLE:
+            add([[i, w, []]])
+    elif k == "mvac":
+        n = s["n"]
+        for j in range(n):
+            add([[i, r"a^\dagger", [j]]])
+            add([[i, "a", [j]]])
+            for j2 in range(n):
+                add([[i, r"a^\dagger a", [j, j2]]])
+    elif k == "multi":
+        n = s["n"]
+        for j in range(n):
+            for j2 in range(n):
+                add([[i, r"a^\dagger a", [j, j2]]])
+    elif k == "dummy":
+        add([[i, "I", []]])
+    return out
+
+
+@st.composite
+def charged_term(draw, spec, charge, blocks=None, real_only=False, decades=1):
+    """one term whose total charge is exactly `charge` (tuple) - by construction; falls back to a neutral term
+    when no site can carry the requested charge (returns (term, achieved charge))."""
+    n = len(spec["sites"])
+    if blocks is None:
+        blocks = [site_blocks(spec, i, real_only) for i in range(n)]
+    qs = qn_size(spec)
+    zero = tuple([0] * qs)
+    used = set()
+    ops = []
+    total = np.zeros(qs, dtype=int)
+    # 0-2 arbitrary blocks on distinct sites
+    for _ in range(draw(st.integers(0, 2))):
+        i = draw(st.integers(0, n - 1))
+        if i in used or not blocks[i]:
+            continue
+        picks, q = draw(st.sampled_from(blocks[i]))
+        used.add(i)
+        ops.extend([list(p) for p in picks])
+        total += np.array(q)
+    # compensate the residual with single-site blocks of the needed charge on unused sites
+    resid = np.array(charge) - total
+    guard = 0
+    while np.any(resid != 0) and guard < 6:
+        guard += 1
+        cands = []
+        for i in range(n):
+            if i in used:
+                continue
+            for picks, q in blocks[i]:
+                qa = np.array(q)
+                if np.any(qa != 0) and np.sum(np.abs(resid - qa)) < np.sum(np.abs(resid)):
+                    cands.append((i, picks, q))
+        if not cands:
+            break
+        i, picks, q = draw(st.sampled_from(cands))
+        used.add(i)
+        ops.extend([list(p) for p in picks])
+        resid = resid - np.array(q)
+    if np.any(resid != 0):
+        # could not reach the requested charge: return a neutral single block instead
+        neutral = [(i, p) for i in range(n) for p, q in blocks[i] if q == zero]
+        i, picks = draw(st.sampled_from(neutral))
+        return {"f": draw(factors(real_only, decades)), "ops": [list(p) for p in picks]}, zero
+    if not ops:
+        neutral = [(i, p) for i in range(n) for p, q in blocks[i] if q == zero]
+        i, picks = draw(st.sampled_from(neutral))
+        ops = [list(p) for p in picks]
+    # shuffle written order across sites (keeps intra-site order)
+    order = draw(st.permutations(list(range(len(ops)))))
+    bysite = {}
+    for o in ops:
+        bysite.setdefault(o[0], []).append(o)
+    seq = []
+    cursor = {k: 0 for k in bysite}
+    for idx in order:
+        sidx = ops[idx][0]
+        seq.append(bysite[sidx][cursor[sidx]])
+        cursor[sidx] += 1
+    return {"f": draw(factors(real_only, decades)), "ops": seq}, tuple(int(x) for x in charge)
+
+
+def reachable_charges(spec):
+    """unit charges some single site block can carry"""
+    out = set()
+    for i in range(len(spec["sites"])):
+        for _, q in site_blocks(spec, i):
+            if any(q):
+                out.add(q)
+    return sorted(out)
+
+
+@st.composite
+def charged_operator(draw, spec, charge=None, max_terms=4, real_only=False, decades=1):
+    """list of terms with one common definite charge; returns (terms, charge tuple)."""
+    n = len(spec["sites"])
+    blocks = [site_blocks(spec, i, real_only) for i in range(n)]
+    qs = qn_size(spec)
+    if charge is None:
+        rc = reachable_charges(spec)
+        if rc and draw(st.integers(0, 2)) == 0:
+            charge = draw(st.sampled_from(rc))
+        else:
+            charge = tuple([0] * qs)
+    t0, q0 = draw(charged_term(spec, charge, blocks, real_only, decades))
+    terms = [t0]
+    for _ in range(draw(st.integers(0, max_terms - 1))):
+        t, q = draw(charged_term(spec, q0, blocks, real_only, decades))
+        if q == q0:
+            terms.append(t)
+    return terms, q0
+
+
+def sectors(spec):
+    """all total quantum numbers reachable by product basis states (sorted list of tuples)."""
+    cur = {tuple([0] * qn_size(spec))}
+    for i in range(len(spec["sites"])):
+        sq = site_sigmaqn(spec, i)
+        cur = {tuple(np.array(c) + q) for c in cur for q in sq}
+    return sorted(cur)
+
+
+def basis_state_qn(spec):
+    """(D, qs) array: quantum number of every product basis state in the dense ordering."""
+    qs = qn_size(spec)
+    out = np.zeros((1, qs), dtype=int)
+    for i in range(len(spec["sites"])):
+        sq = site_sigmaqn(spec, i)
+        out = (out[:, None, :] + sq[None, :, :]).reshape(-1, qs)
+    return out
